@@ -44,7 +44,7 @@ def fmt(k):
 
 def run_case(case, cx):
     m, m2, cfg = case["model"], case["mutant"], case["cfg"]
-    d, b1, b2 = pairs.build_pair(cx, m, m2, cfg, nodebug_tus=tuple(case["nodebug"]))
+    d, b1, b2 = pairs.build_pair(cx, m, m2, cfg, nodebug_tus=tuple(case["nodebug"]), sonames=None)
     r = pairs.abidiff(cx, b1, b2)
     if cbuild.crashed(r):
         cx.violation("crash:" + cbuild.crash_key(r), r.brief())
